@@ -525,7 +525,12 @@ func nodeType2(interp *Interpreter, sc *scope, n *node, seen []*node) (t *itype,
 			case constant.String:
 				t = untypedString(n)
 			case constant.Int:
-				t = untypedInt(n)
+				if strings.HasPrefix(n.ident, "'") {
+					// The value of a rune literal has already been converted (see above).
+					t = untypedRune(n)
+				} else {
+					t = untypedInt(n)
+				}
 			case constant.Float:
 				t = untypedFloat(n)
 			case constant.Complex:
